@@ -156,7 +156,29 @@ def r3_ready(prog, rep: Report, pf: PoolFacts, wrun: Func):
         rep.viol("C04.R3", uar, "waits-all", "until_all_ready does not wait (without timeout) on an event of every element of self.procs",
                  scenario="until_all_ready() returns while a worker is still inside begin()")
         return
-    rep.check("C04.R3", uar, "waits-all", loop_ok, f"waits on .{ev} of every element of self.procs",
+    # every path through until_all_ready runs the wait loop: it is a top-level statement (possibly inside `with` blocks) and no
+    # statement before it can leave the function
+    def top_level(body):
+        for k, st in enumerate(body):
+            if isinstance(st, ast.For) and dotted(st.iter) == (uar.self_name, "procs"):
+                return [], True
+            if isinstance(st, ast.With):
+                early, found = top_level(st.body)
+                if found:
+                    return early, True
+            early = [x for x in ast.walk(st) if isinstance(x, (ast.Return, ast.Raise))]
+            if early:
+                return early, False
+        return [], False
+    early, on_all_paths = top_level(uar.node.body)
+    if loop_ok and not on_all_paths:
+        rep.viol("C04.R3", uar, "waits-all", "a path through until_all_ready leaves before (or without) the wait loop over self.procs"
+                 + (f": `{src(early[0])}` at line {early[0].lineno}" if early else ""),
+                 scenario="a second call after a worker was replaced returns while the successor is still inside begin()",
+                 line=early[0].lineno if early else uar.node.lineno)
+        loop_ok = None
+    if loop_ok is not None:
+        rep.check("C04.R3", uar, "waits-all", loop_ok, f"waits on .{ev} of every element of self.procs, on every path",
               "the wait loop can skip workers (break/return/condition inside)",
               scenario="until_all_ready() returns while a worker is still inside begin()")
     client = _Ready(pf, ev)
